@@ -99,6 +99,16 @@ inductive AngleResult (α : Type) where
   /-- `('fourier', kijk, c0, c1, c2)` -/
   | fourier (k c0 c1 c2 : α)
 
+/-- the force constant `kijk` of either form -/
+def AngleResult.k {α : Type} : AngleResult α → α
+  | .cosinePeriodic k _ _ => k
+  | .fourier k _ _ _ => k
+
+/-- the potential style of the result -/
+def AngleResult.style {α : Type} : AngleResult α → AngleStyle
+  | .cosinePeriodic _ b n => .cosinePeriodic n b
+  | .fourier _ _ _ _ => .fourier
+
 /-- `theta0deg * 2 * pi / 360` -/
 def theta0rad (theta0deg : α) : α := theta0deg * int 2 * pi / int 360
 
